@@ -1,8 +1,85 @@
-(* C14 — ui.json files round-trip.  (stub: statements are added below) *)
-From Coq Require Import String.
-From GV Require Import Prelude.Base Model.PyVal Model.Enforcers Model.UiForms Model.UiCodec Proofs.PyValProofs.
-From GVgen Require Import PyLite_SharedUtils PyLite_UiUtils PyLite_InputFile.
+(* C14 — ui.json files round-trip.
+   Only statements, each closed by [exact] and followed by Print Assumptions.
 
-Theorem C14_stub : forall (a : pv), bind (Ok a) (fun x => Ok x) = Ok a.
-Proof. intros; reflexivity. Qed.
-Print Assumptions C14_stub.
+   dict_mapper, the write mappers (nan2str inf2str as_str_if_uuid none2str), the demotion mappers (entity2uuid ...),
+   the read mappers (str2none str2inf str2uuid) are the PyLite translations of the current source
+   (coq/generated/PyLite_SharedUtils.v, PyLite_UiUtils.v, regenerated on every run); json, path2workspace /
+   workspace2path, uuid2entity and the uuid text are the hand models of Model/UiCodec.v and Model/PyVal.v.
+   [value_trip] sends one value through dict_mapper with the demotion functions, dict_mapper with the write functions,
+   json, dict_mapper with the read functions - exactly what InputFile.demote / stringify / json / numify do to every
+   member of every form, at any nesting depth of dictionaries (they all delegate to dict_mapper).
+   The InputFile flow around it (flatten, promote, update_ui_values, set_enabled, enabled states) is the hand model
+   round_trip of Model/UiCodec.v, tied to the implementation by write->read on disk (no theorem: PARTIAL). *)
+From Coq Require Import String.
+From GV Require Import Prelude.Base Model.PyVal Model.Enforcers Model.UiForms Model.UiCodec
+     Proofs.PyValProofs Proofs.UiCodecProofs.
+From GVgen Require Import PyLite_SharedUtils PyLite_UiUtils PyLite_InputFile.
+Local Open Scope string_scope.
+
+(* ---- how dict_mapper treats a value: scalars get the functions in order, lists element by element (one level) ---- *)
+Theorem C14_dict_mapper_scalar : forall n v fs, isinst v [TDict; TList] = false -> dict_mapper (S n) v fs = apply_all fs v.
+Proof. exact dict_mapper_scalar. Qed.
+Print Assumptions C14_dict_mapper_scalar.
+
+Theorem C14_dict_mapper_list : forall n l fs,
+  dict_mapper (S n) (PList l) fs = (l' <- map_res (apply_all fs) l ;; Ok (PList l')).
+Proof. exact dict_mapper_list. Qed.
+Print Assumptions C14_dict_mapper_list.
+
+(* ---- PARTIAL: every value whose text is not the text of another kind comes back unchanged ---- *)
+(* None, booleans, integers, finite floats, +-inf, strings, identifiers (entities come back as their identifier, which
+   promotion turns into the entity again), workspace paths.  Side condition atom_safe = exactly the look-alikes below;
+   for identifiers it contains the decidable check that the braced text parses back (uuid_text_ok). *)
+Theorem C14_value_roundtrip : forall n v, is_atom v = true -> atom_safe v = true -> value_trip (S n) v = Ok (canon v).
+Proof. exact atom_roundtrip. Qed.
+Print Assumptions C14_value_roundtrip.
+
+Example C14_value_roundtrip_nonvacuous :
+  atom_safe (PFloat FNInf) = true /\ atom_safe (PStr "Points_A") = true /\ atom_safe (PInt (2 ^ 70)) = true
+  /\ atom_safe (PEnt KEntity 48%N) = true /\ atom_safe (PUuid (2 ^ 127 + 12345)%N) = true /\ atom_safe (PWs "dir/w.geoh5") = true
+  /\ value_trip 3 (PEnt KEntity 48%N) = Ok (PUuid 48%N) /\ value_trip 3 (PFloat FPInf) = Ok (PFloat FPInf).
+Proof. vm_compute. repeat split; reflexivity. Qed.
+
+(* the strings that do not survive are exactly: "", "inf", "-inf", uuid-shaped, "*.geoh5" *)
+Theorem C14_string_roundtrip_iff : forall n s, value_trip (S n) (PStr s) = Ok (PStr s) <-> string_safe s = true.
+Proof. exact string_roundtrip_iff. Qed.
+Print Assumptions C14_string_roundtrip_iff.
+
+(* the integers that do not survive are exactly those whose decimal text is uuid-shaped (32 digits) *)
+Theorem C14_int_roundtrip_iff : forall n z, value_trip (S n) (PInt z) = Ok (PInt z) <-> int_safe z = true.
+Proof. exact int_roundtrip_iff. Qed.
+Print Assumptions C14_int_roundtrip_iff.
+
+(* promoting an identifier of the workspace and demoting it again returns the identifier; an entity that is written
+   and read is promoted to the same entity *)
+Theorem C14_demote_promote : forall W k u, w_kind W u = Some k -> entity2uuid (uuid2entity W (PUuid u)) = Ok (PUuid u).
+Proof. exact demote_promote_uuid. Qed.
+Print Assumptions C14_demote_promote.
+
+Theorem C14_entity_roundtrip : forall n W k u, w_kind W u = Some k -> uuid_text_ok u = true ->
+  (v <- value_trip (S n) (PEnt k u) ;; Ok (uuid2entity W v)) = Ok (PEnt k u).
+Proof. exact entity_roundtrip. Qed.
+Print Assumptions C14_entity_roundtrip.
+
+(* ---- PARTIAL: no non-finite float reaches json.dump (scalars and lists of scalars, i.e. every template form) ---- *)
+Theorem C14_no_nonfinite_scalar : forall n v w, is_atom v = true -> value_written (S n) v = Ok w -> has_nonfinite w = false.
+Proof. exact written_atom_finite. Qed.
+Print Assumptions C14_no_nonfinite_scalar.
+
+Theorem C14_no_nonfinite_to_json : forall n l w,
+  forallb is_atom l = true -> value_written (S n) (PList l) = Ok w -> has_nonfinite w = false.
+Proof. exact written_flat_list_finite. Qed.
+Print Assumptions C14_no_nonfinite_to_json.
+
+(* ---- REFUTED: the unrestricted statements (witnesses replayed on the implementation: open findings) ---- *)
+Theorem C14_roundtrip_all_strings_refuted : ~ (forall n s, value_trip (S n) (PStr s) = Ok (PStr s)).
+Proof. exact all_strings_refuted. Qed.
+Print Assumptions C14_roundtrip_all_strings_refuted.
+
+Theorem C14_roundtrip_all_ints_refuted : ~ (forall n z, value_trip (S n) (PInt z) = Ok (PInt z)).
+Proof. exact all_ints_refuted. Qed.
+Print Assumptions C14_roundtrip_all_ints_refuted.
+
+Theorem C14_no_nonfinite_nested_refuted : ~ (forall n v w, value_written (S n) v = Ok w -> has_nonfinite w = false).
+Proof. exact nonfinite_nested_refuted. Qed.
+Print Assumptions C14_no_nonfinite_nested_refuted.
